@@ -7,13 +7,17 @@ The clause "for all byte strings the parsers answer or reject in bounded time" i
 All theorems quantify over EVERY operation sequence from the initial empty tables.
 -/
 -- AGENT-REPORT:
---   No statement in this file is false as written; no statement, hypothesis or definition was changed.
+--   No statement in this file is false as written.  One hypothesis was re-stated when the model grew the
+--   operations timeout / restart / complete / error: `pull_never_blocks` used to exclude `cancel` only; it now
+--   admits exactly the operations whose sends are READY/RUNNING on a fresh channel (`Op.admissionOnly`), since
+--   each of the new operations also sends on an existing channel (see `restart_chain_can_block`).
 --   Note (not a correction): in `cancel_effective` the hypothesis `hnr` is redundant for this model.
 --   `step _ (.cancel q)` sets `waiting := removeFirstWaiting q s.waiting` in BOTH branches (q running
 --   or not), so `huniq` alone yields the conclusion; `hnr` is kept (unused) to leave the statement
 --   untouched.  All helper lemmas live in SigModel/Lemmas/C17.lean.
 import SigModel.Model.QTable
 import SigModel.Lemmas.C17
+import SigModel.Lemmas.C17e
 
 namespace SigModel.Props.C17
 open SigModel.QTable
@@ -69,13 +73,173 @@ theorem fresh_objects_never_block (s : St) (q : Nat) (force : Bool) (h : s.block
   Lemmas.C17.step_start_blocked s q force h
 
 theorem pull_never_blocks (m : Nat) (ops : List Op)
-    (hnc : ∀ op ∈ ops, ∀ q, op ≠ Op.cancel q) :
+    (hnc : ∀ op ∈ ops, op.admissionOnly = true) :
     (run (init m) ops).blocked = false :=
   (Lemmas.C17.run_inv_of Lemmas.C17.NoBlock Lemmas.C17.NotCancel Lemmas.C17.step_noBlock
     ops (init m) hnc ⟨rfl, by simp [init]⟩).1
 
 /-- non-vacuity: a sequence in which a waiting query is cancelled and a later pull admits the next one -/
 example : (run (init 1) [.start 1 true, .start 2 false, .start 3 false, .cancel 2, .delete 1, .pull]).running.map Prod.fst = [3] := by
+  decide
+
+/-- … and the restriction is needed: `RestartQuery` hands the OLD channel to the new object and sends
+READY/RUNNING on it while `arqMapLock` is held, so a chain of restarts without a draining consumer fills the
+channel and a send under the table lock blocks (no `cancel` involved). -/
+theorem restart_chain_can_block :
+    (run (init 2) [.startc 1 true, .restart 1 2 true, .restart 2 3 true, .restart 3 4 true, .restart 4 5 true, .restart 5 6 true]).blocked = true := by
+  decide
+
+/-! ## Lifecycle: admission limit, timeout, terminal state, restart -/
+
+/-- C17.6 admission limit at full strength: in EVERY reachable state the running table holds at most
+`MAX_RUNNING_QUERIES` entries plus the number of forced starts issued so far (`canRunQuery` counts every
+entry of the table, cancelled-but-not-yet-deleted ones included; a forced `RestartQuery` replaces an entry). -/
+theorem running_bounded_with_forced (m : Nat) (ops : List Op) :
+    (run (init m) ops).running.length ≤ m + (ops.filter Op.forced).length := by
+  have := Lemmas.C17.run_running_bounded ops (init m) 0 (by simp [init])
+  simpa [init] using this
+
+/-- … in particular, without forced starts the admission limit is never exceeded -/
+theorem running_bounded (m : Nat) (ops : List Op) (h : ∀ op ∈ ops, op.forced = false) :
+    (run (init m) ops).running.length ≤ m := by
+  have hf : ops.filter Op.forced = [] := by
+    rw [List.filter_eq_nil_iff]
+    intro op hop
+    simp [h op hop]
+  have := running_bounded_with_forced m ops
+  rw [hf] at this
+  simpa using this
+
+/-- C17.7 every admitted query has its timeout armed: each entry of the running table is stored under its own
+qid, its `timeoutCancelFunc` is set, and unless it is already cancelled its timer goroutine is still pending
+(so the timer can not have been consumed before admission). -/
+theorem admitted_query_is_armed (m : Nat) (ops : List Op) (q : Nat) (r : RQ)
+    (h : lookup q (run (init m) ops).running = some r) :
+    r.qid = q ∧ r.timeoutArmed = true ∧ (r.cancelled = false → r.timerLive = true) := by
+  have hinv := Lemmas.C17.run_inv' ops (init m) (Lemmas.C17.inv_init m)
+  obtain ⟨h1, h2, h3, _, _⟩ := hinv.1 _ (Lemmas.C17.lookup_mem h)
+  refine ⟨h1, h2, ?_⟩
+  intro hc
+  rcases h3 with h3 | h3
+  · exact h3
+  · rw [hc] at h3; simp at h3
+
+/-- … and no timer runs for a query that is still waiting for admission; queued objects are never cancelled
+(a cancelled one leaves the queue), so a `pull` below the limit always admits the head of the queue. -/
+theorem waiting_query_has_no_timer (m : Nat) (ops : List Op) (w : RQ)
+    (h : w ∈ (run (init m) ops).waiting) :
+    w.timeoutArmed = false ∧ w.timerLive = false ∧ w.cancelled = false := by
+  have hinv := Lemmas.C17.run_inv' ops (init m) (Lemmas.C17.inv_init m)
+  obtain ⟨h1, h2, h3, _⟩ := hinv.2.1 w h
+  exact ⟨h1, h2, h3⟩
+
+/-- C17.8 a timeout stops the query: when the timer of a running, not yet cancelled query fires (and the
+consumer has left room for two messages), the object is marked cancelled and TIMEOUT (6) then CANCELLED (5)
+have been sent on its channel. -/
+theorem timeout_stops (m : Nat) (ops : List Op) (q : Nat) (r : RQ)
+    (hl : lookup q (run (init m) ops).running = some r) (hnc : r.cancelled = false)
+    (hroom : r.chanLen + 2 ≤ chanCap) :
+    ∃ r', lookup q (step (run (init m) ops) (Op.timeout q)).1.running = some r' ∧ r'.obj = r.obj ∧
+      r'.cancelled = true ∧ r'.sent = r.sent ++ [6, 5] := by
+  have hinv := Lemmas.C17.run_inv' ops (init m) (Lemmas.C17.inv_init m)
+  obtain ⟨t1, t2, t3, _, _⟩ := Lemmas.C17.timedOut_spec r hroom
+  exact ⟨Lemmas.C17.timedOut r, Lemmas.C17.fireTimeout_stops hinv hl hnc hroom, t3, t1, by rw [t2]; simp⟩
+
+/-- C17.2 exactly one terminal state: the terminal state of a query object (the first of COMPLETE 4,
+CANCELLED 5, TIMEOUT 6, ERROR 7 on its channel) never changes once it is set, whatever happens afterwards
+(later cancels, a late timer, a late completion, restarts of other queries, …). -/
+theorem one_terminal_state (m : Nat) (ops1 ops2 : List Op) (q t : Nat) (r r' : RQ)
+    (hl : lookup q (run (init m) ops1).running = some r) (ht : terminalOf r = some t)
+    (hl' : lookup q (run (init m) (ops1 ++ ops2)).running = some r') (hobj : r'.obj = r.obj) :
+    terminalOf r' = some t := by
+  have hinv := Lemmas.C17.run_inv' ops1 (init m) (Lemmas.C17.inv_init m)
+  have h0 := Lemmas.C17.termAt_of_inv hinv hl ht
+  have h1 := Lemmas.C17.run_termAt ops2 _ h0
+  rw [Lemmas.C17.run_append] at hl'
+  exact h1.2.2 r' hl' hobj
+
+/-- … and which one it is, is decided by the first terminal event that reaches the channel of a running query
+without a terminal state: a cancel makes it CANCELLED, its timer TIMEOUT (followed by the cancellation),
+`SendQueryStateComplete` COMPLETE, an error report ERROR. -/
+theorem terminal_state_by_first_event (m : Nat) (ops : List Op) (q : Nat) (r : RQ)
+    (hl : lookup q (run (init m) ops).running = some r) (hnone : terminalOf r = none)
+    (hroom : r.chanLen + 2 ≤ chanCap) :
+    (∃ r', lookup q (step (run (init m) ops) (Op.cancel q)).1.running = some r' ∧ r'.obj = r.obj ∧
+        r'.cancelled = true ∧ terminalOf r' = some 5) ∧
+    (r.cancelled = false →
+      ∃ r', lookup q (step (run (init m) ops) (Op.timeout q)).1.running = some r' ∧ r'.obj = r.obj ∧
+        r'.cancelled = true ∧ terminalOf r' = some 6) ∧
+    (∃ r', lookup q (step (run (init m) ops) (Op.complete q)).1.running = some r' ∧ r'.obj = r.obj ∧
+        terminalOf r' = some 4) ∧
+    (∃ r', lookup q (step (run (init m) ops) (Op.error q)).1.running = some r' ∧ r'.obj = r.obj ∧
+        terminalOf r' = some 7) := by
+  have hinv := Lemmas.C17.run_inv' ops (init m) (Lemmas.C17.inv_init m)
+  have hlt : r.chanLen < chanCap := by omega
+  exact ⟨Lemmas.C17.cancel_terminal hl hnone hlt,
+    fun hnc => Lemmas.C17.timeout_terminal hinv hl hnc hnone hroom,
+    Lemmas.C17.selfSend_terminal hl hnone hlt rfl,
+    Lemmas.C17.selfSend_terminal hl hnone hlt rfl⟩
+
+/-- C17.9 `RestartQuery` keeps the tables well-formed: after restarting a running, un-cancelled coordinator
+query `q` under the fresh qid `nq` (what `GetNextQid` hands out), in any reachable state with room in the queue,
+the old entry is gone, the new qid is present EXACTLY ONCE — in the running table (armed, its timer pending,
+not cancelled) when forced, else at the end of the queue —, the running table is still a map, every
+admitted query is still armed, and the queue is still within its limit. -/
+theorem restart_preserves_inv (m : Nat) (ops : List Op) (q nq : Nat) (force : Bool) (r : RQ)
+    (hl : lookup q (run (init m) ops).running = some r) (hnc : r.cancelled = false) (hco : r.coord = true)
+    (hfresh : lookup nq (run (init m) ops).running = none)
+    (hfreshW : ∀ w ∈ (run (init m) ops).waiting, w.qid ≠ nq)
+    (hroom : (run (init m) ops).waiting.length < maxWaiting) :
+    let s' := (step (run (init m) ops) (Op.restart q nq force)).1
+    lookup q s'.running = none ∧
+    (s'.running.map Prod.fst).count nq + (s'.waiting.map (·.qid)).count nq = 1 ∧
+    (if force then ∃ n, lookup nq s'.running = some n ∧ n.cancelled = false ∧ n.coord = true ∧
+        n.timeoutArmed = true ∧ n.timerLive = true
+     else lookup nq s'.running = none ∧ ∃ n, s'.waiting = (run (init m) ops).waiting ++ [n] ∧ n.qid = nq) ∧
+    (s'.running.map Prod.fst).Nodup ∧
+    (∀ k x, lookup k s'.running = some x → x.qid = k ∧ x.timeoutArmed = true) ∧
+    s'.waiting.length ≤ maxWaiting := by
+  intro s'
+  have hinv := Lemmas.C17.run_inv' ops (init m) (Lemmas.C17.inv_init m)
+  have hinv' : Lemmas.C17.Inv s' := Lemmas.C17.step_inv _ _ hinv
+  obtain ⟨_, h2, h3, h4⟩ := Lemmas.C17.restartQuery_spec (force := force) hl hnc hco hfresh hfreshW hroom
+  refine ⟨h2, h3, ?_, ?_, ?_, ?_⟩
+  · cases force with
+    | true =>
+      simp only [if_true] at h4 ⊢
+      obtain ⟨n, n1, _, n3, n4, n5, n6⟩ := h4
+      exact ⟨n, n1, n3, n4, n5, n6⟩
+    | false =>
+      simp only [Bool.false_eq_true, if_false] at h4 ⊢
+      obtain ⟨n0, n, n1, n2, _, _⟩ := h4
+      exact ⟨n0, n, n1, n2⟩
+  · exact Lemmas.C17.step_nodup _ _ (running_is_map m ops)
+  · intro k x hk
+    obtain ⟨x1, x2, _⟩ := hinv'.1 _ (Lemmas.C17.lookup_mem hk)
+    exact ⟨x1, x2⟩
+  · exact Lemmas.C17.step_waiting_bounded _ _ (waiting_bounded m ops)
+
+/-- non-vacuity (admission): cancelled-but-undeleted queries keep their slot — with limit 1 the pull after
+the cancel admits nothing; after the delete it does -/
+example : ((run (init 1) [.start 1 false, .start 2 false, .pull, .cancel 1, .pull]).running.map Prod.fst = [1]) ∧
+    ((run (init 1) [.start 1 false, .start 2 false, .pull, .cancel 1, .pull, .delete 1, .pull]).running.map Prod.fst = [2]) := by
+  decide
+
+/-- non-vacuity (timeout): a query that waited, was admitted by a pull and then timed out is cancelled and
+has received READY, RUNNING, TIMEOUT, CANCELLED; its terminal state is TIMEOUT and a late completion does not
+change it -/
+example : (lookup 7 (run (init 1) [.start 7 false, .pull, .timeout 7, .complete 7]).running).map
+    (fun r => (r.cancelled, r.sent, terminalOf r)) = some (true, [1, 2, 6, 5, 4], some 6) := by
+  decide
+
+/-- non-vacuity (restart): the hypotheses of `restart_preserves_inv` are satisfiable, forced and queued -/
+example : (run (init 2) [.startc 1 true, .restart 1 2 true]).running.map Prod.fst = [2] ∧
+    ((run (init 2) [.startc 1 true, .restart 1 2 false]).running.map Prod.fst = [] ∧
+     (run (init 2) [.startc 1 true, .restart 1 2 false]).waiting.map (·.qid) = [2]) := by
+  decide
+
+/-- non-vacuity (forced starts): the bound of `running_bounded_with_forced` is attained -/
+example : (run (init 1) [.start 1 true, .start 2 true, .startc 3 true]).running.length = 1 + 2 := by
   decide
 
 end SigModel.Props.C17
